@@ -59,6 +59,11 @@ def make_inputs(seed, n_family, n_mut, n_raw, with_android=True, size=1.0, featu
         cases.append(dict(id='m%d' % i, path='mut/M%d.java' % i, data=m.encode('utf-8', errors='surrogatepass') if False else m.encode('utf-8', errors='replace'), origin='mutant'))
     for i in range(n_raw):
         cases.append(dict(id='r%d' % i, path='raw/R%d.java' % i, data=javagen.random_bytes(rng), origin='raw'))
+    # bytes that are not UTF-8 (ISO-8859-1 text, stray bytes) inside literals, comments and identifiers of family files
+    for i, src in enumerate(fam[:max(2, n_mut // 40)] if n_mut else []):
+        q = src.find(b'"')
+        v = b'// caf\xe9 \xff\n' + (src[:q + 1] + b'\xe9\xfc ' + src[q + 1:] if q >= 0 else src) + b'\n/* na\xefve \xc3 */ class L\xe9 { int \xe9 = 1 + 2; }\n'
+        cases.append(dict(id='l%d' % i, path='latin/L%d.java' % i, data=v, origin='mutant'))
     # minimal tokens inserted into / substituted in family files (a share of the mutant budget)
     k = 0
     for src in fam[:max(1, n_mut // 150)] if n_mut else []:
@@ -259,3 +264,41 @@ def oracle_census(rec, cstrec):
             else:
                 viol.append(('lost-entity', k[0], k[1], k[2][:60]))
     return viol, known, dict(expected=sum(exp.values()), got=sum(got.values()))
+
+
+def disk_locations(cases, workdir, harness):
+    """C04/C09 through the real read path: the cases are written to disk, scanned with graph.Initialize (harness
+    init-dump) and every reported entity is checked against the bytes ON DISK. -> (stats, failures)"""
+    import shutil
+    from collections import Counter
+    root = os.path.join(workdir, 'disk')
+    shutil.rmtree(root, ignore_errors=True)
+    written = {}
+    for c in cases:
+        if os.path.isabs(c['path']):
+            continue
+        p = os.path.join(root, c['id'], c['path'])
+        os.makedirs(os.path.dirname(p), exist_ok=True)
+        with open(p, 'wb') as f:
+            f.write(c['data'])
+        written[p.encode('utf-8')] = c
+    out = os.path.join(workdir, 'disk_dump.txt')
+    p = subprocess.run([harness, 'init-dump', root, out], capture_output=True, timeout=1800, env=dict(os.environ, HOME=workdir))
+    stats, bad = Counter(files=len(written)), []
+    if p.returncode != 0:
+        return stats, [dict(what='graph.Initialize on the written files failed: rc=%d %s' % (p.returncode, p.stderr.decode(errors='replace')[-300:]))]
+    by_file = {}
+    for line in open(out):
+        if line.startswith('NODE '):
+            n = parse_kv(line.rstrip('\n'))
+            by_file.setdefault(unhx(n['file']), []).append(n)
+    for f, nodes in by_file.items():
+        c = written.get(f)
+        if c is None:
+            bad.append(dict(what='an entity is reported for a file that was not scanned', file=f.decode('utf-8', 'replace')))
+            continue
+        stats['entities'] += len(nodes)
+        b = oracle_location(dict(case=dict(data=c['data'], path=f.decode('utf-8', 'surrogateescape')), impl_nodes=nodes))
+        if b:
+            bad.append(dict(what='entity location does not denote the text on disk', case=c, detail=b[:3]))
+    return stats, bad
